@@ -224,6 +224,7 @@ class TriggerHandler:
         while len(self._callbacks.value) > 0:
             # remove top context
             context: CallbackContext = self._callbacks.value.pop()
+            context.note(event, frame, arg)
             # if it is for our location process it
             if context.at_location(event, file, line, function_name, frame):
                 logging.debug("At callback location %s", context.name)
